@@ -110,6 +110,8 @@ func corrWop(o *Out, op Op, kind string, plain bool, v *Val, pre []byte, m BufMo
 		out = "ok | " + p + hexOf(app) + " | " + v.String()
 	}
 	o.emit(line, out, fmt.Sprintf("wop:%s:%s:%s:%s:%v", opTokens(op), kind, class, lenClass(len(app)), plain), true)
+	// the same case for the function body as translated into GoIR from the source (driver command irw)
+	o.emit("irw "+b01(plain)+" "+opTokens(op)+" "+v.String(), out, "", false)
 	o.stat("wop-" + op.K + "-" + class)
 	return WopResult{class, app, msg}
 }
@@ -135,6 +137,7 @@ func corrRop(o *Out, op Op, kind string, plain bool, data []byte, m BufMode) Rop
 		out = fmt.Sprintf("ok | %s%d | %s", p, consumed, v.String())
 	}
 	o.emit(line, out, fmt.Sprintf("rop:%s:%s:%s:%s:%v", opTokens(op), kind, class, lenClass(len(data)), plain), true)
+	o.emit("irr "+b01(plain)+" "+opTokens(op)+" "+hexOf(data), out, "", false)
 	o.stat("rop-" + op.K + "-" + class)
 	return RopResult{class, consumed, v, msg}
 }
@@ -163,4 +166,11 @@ func (g *Gen) endian() string {
 		return "le"
 	}
 	return "be"
+}
+
+func b01(b bool) string {
+	if b {
+		return "1"
+	}
+	return "0"
 }
